@@ -32,6 +32,19 @@ for i, t in enumerate(texts):
         r = parse_single(InsnParsingBundle(grammar, "x", [t]))["x"]                          # fresh parser object, real pool worker code
         res.append("EXC:" + r.exception.name if r.exception else hashlib.sha256(r.asts[0].pretty().encode()).hexdigest()[:16])
     out[str(i)] = res
+    if i % 5 == 0 and not res[0].startswith("EXC"):
+        # multi-part bundles (repeated and distinct part texts): one tree per part, in the order given, each the tree of ITS text
+        t2 = texts[(i + 1) % len(texts)]
+        for parts in ([t, t2, t], [t2, t], [t, t]):
+            want = []
+            try:
+                want = [hashlib.sha256(c.parser.parse(p_).pretty().encode()).hexdigest()[:16] for p_ in parts]
+            except Exception:
+                continue
+            r = parse_single(InsnParsingBundle(grammar, "x", list(parts)))["x"]
+            got = None if r.exception else [hashlib.sha256(a.pretty().encode()).hexdigest()[:16] for a in r.asts]
+            if got != want or list(r.behaviors) != list(parts):
+                out.setdefault("multi", []).append([i, len(parts), len(got or []), list(r.behaviors) == list(parts)])
 print(json.dumps(out))
 '''
 
@@ -71,6 +84,10 @@ def _determinism(rep, texts, nseeds):
                     f"and fresh/reused parser objects: {sorted(flat)[:4]}")
         else:
             rep.add(f"parse:{t}", "ok")
+    for k, o in enumerate(good):
+        for i, nparts, ngot, same_texts in o.get("multi", []):
+            rep.add(f"parse-multi:{texts[i]}#seed{k}", "violation", "nondeterministic", f"a {nparts}-part bundle containing this text comes back from "
+                    f"parse_single with {ngot} trees that are not the trees of its parts in the order given (texts kept in order: {same_texts})")
     rep.coverage["determinism"] = dict(texts=len(texts), processes=len(good), parser_objects="the Compiler's own parser object (reused) + a fresh parse_single() parser for every 3rd text",
                                        note="concrete runs (hash seed / process dimension is enumerated, not solved)")
 
